@@ -492,6 +492,14 @@ func Run[C any](t *testing.T, spec Spec[C]) {
 				return
 			}
 			lastCase, lastCtx, lastErr = c, x, err
+			if _, fatal := err.(*FatalGuard); fatal {
+				// a runaway call cannot be stopped: report the (unshrunk) case and end the process
+				report(c, x, err, "")
+				s.Completed = true
+				s.WallS = time.Since(start).Seconds()
+				s.write()
+				os.Exit(1)
+			}
 			shrinking = true
 			rt.Fatalf("%v", err)
 		}
